@@ -246,8 +246,44 @@ def expanded_ops(case):
             out.append((i, {"op": "restart", "calls": [], "alive": op.get("alive", True), "synced": True}))
             out.append((i, {"op": "tick", "m": op["wall"] // 60, "wall": op["wall"], "calls": op.get("calls", []),
                             "alive": op.get("alive", True), "synced": True}))
+        elif op["op"] == "loop":
+            # the daemon's own loop (Scheduler.start) asked for n ticks: the property wants the boot minute m0 and then
+            # m0+1, m0+2, ... each ticked once, not before its minute; the k-th tick observed is held against minute m0+k
+            ticks = op.get("ticks") or []
+            if op.get("real"):
+                m0 = (ticks[0]["at"] // 60) if ticks and ticks[0].get("at") else None
+            else:
+                m0 = op["wall"] // 60
+            out.append((i, {"op": "restart", "calls": [], "alive": op.get("alive", True), "synced": True}))
+            if m0 is not None:
+                for k in range(op.get("n", 0)):
+                    t = ticks[k] if k < len(ticks) else {"calls": [], "at": 0}
+                    wall = t["at"] if (op.get("real") and t.get("at")) else (m0 + k) * 60 + 59
+                    out.append((i, {"op": "tick", "m": m0 + k, "wall": wall, "calls": t["calls"],
+                                    "alive": op.get("alive", True), "synced": True}))
         else:
             out.append((i, op))
+    return out
+
+
+def loop_timing(case):
+    """Real-clock loops: the k-th tick must arrive in minute m0+k, within a few seconds of its beginning."""
+    out = []
+    for i, op in enumerate(case["ops"]):
+        if op["op"] == "loop" and op.get("real"):
+            ticks = op.get("ticks") or []
+            if not ticks or not ticks[0].get("at"):
+                out.append({"op": i, "file": "", "what": "the daemon did not run its boot tick", "cls": {"class": "loop-timing", "cause": "unexplained"}})
+                continue
+            m0 = ticks[0]["at"] // 60
+            for k, t in enumerate(ticks):
+                if k == 0:
+                    continue
+                late = t.get("at", 0) - (m0 + k) * 60
+                if not t.get("at") or late < 0 or late > 6:
+                    out.append({"op": i, "file": "", "what": "tick %d of the daemon's loop arrived %s s after the beginning of minute %d "
+                                "(expected within 0..6 s)" % (k, late if t.get("at") else "never/not within 75", m0 + k),
+                                "cls": {"class": "loop-timing", "cause": "unexplained"}})
     return out
 
 
